@@ -6,7 +6,7 @@ They hold for every setting `q` of the quirk switches, i.e. both for the code as
 (`Quirks.code`) and for the reference behaviour, in every state satisfying the row invariant
 `Inv` — and `reachable_inv` shows that is every state reachable by any finite history.
 -/
-import Pithos.Lemmas.S3Read
+import Pithos.Lemmas.S3FrameStep
 
 namespace Pithos.C01
 open Pithos.S3
@@ -138,5 +138,98 @@ from which the hypotheses of `read_after_put` are met and the read returns the b
 example : (step Quirks.code (run Quirks.code {} [.mkb "b", .put "b" "k" [] {} false .none]).1
     (.put "b" "k" [1, 2, 3] { ct := some "text/plain" } false .none)).2 = .wrote none (singleETag [1, 2, 3]) := by
   decide
+
+/-- What a successful plain GET shows, in terms of the current-version view. -/
+theorem get_obj_cur {q : Quirks} {s : State} {b k : String} {v : ObjView}
+    (h : (step q s (.get b k none)).2 = .obj v) :
+    ∃ c, curView s b k = some c ∧ c.dm = false ∧ v.body = c.parts.flatten ∧ v.ct = c.ct ∧ v.md = c.md ∧
+      v.etag = c.etag ∧ v.vid = c.vid := by
+  have hfb : findBucket { s with clock := s.clock + 1 } b = findBucket s b := rfl
+  simp only [step, stepT, hfb] at h
+  unfold curView
+  cases hf : findBucket s b with
+  | none => simp [hf] at h
+  | some bk =>
+    simp only [hf, resolve] at h
+    cases hl : latestRow bk k with
+    | none => simp [hl] at h
+    | some r =>
+      simp only [hl] at h
+      by_cases hd : r.dm = true
+      · simp [hd] at h
+      · simp only [hd, Bool.false_eq_true, if_false] at h
+        injection h with h
+        refine ⟨cv r, ?_, by simpa [cv] using hd, ?_⟩
+        · simp only [Option.bind_some, CVr, ← latestRow_pk, hl, Option.map_some]
+        · subst h; simp [viewOf, cv, Row.content]
+
+theorem get_of_cur {q : Quirks} {s : State} {b k : String} {c : CV}
+    (h : curView s b k = some c) (hdm : c.dm = false) :
+    ∃ v, (step q s (.get b k none)).2 = .obj v ∧ v.body = c.parts.flatten ∧ v.size = c.parts.flatten.length ∧
+      v.ct = c.ct ∧ v.md = c.md ∧ v.etag = c.etag ∧ v.vid = c.vid := by
+  unfold curView at h
+  cases hf : findBucket s b with
+  | none => simp [hf] at h
+  | some bk =>
+    simp only [hf, Option.bind_some, CVr, ← latestRow_pk] at h
+    cases hl : latestRow bk k with
+    | none => simp [hl] at h
+    | some r =>
+      simp only [hl, Option.map_some, Option.some.injEq] at h
+      subst h
+      obtain ⟨hg, _⟩ := get_current (q := q) hf hl (by simpa [cv] using hdm)
+      exact ⟨viewOf r, hg, by simp [viewOf, cv, Row.content], by simp [viewOf, cv, Row.size, Row.content],
+        by simp [viewOf, cv], by simp [viewOf, cv], by simp [viewOf, cv], by simp [viewOf, cv]⟩
+
+/-- **get_stable (frame).** Whatever a plain GET of (b, k) returns in a state satisfying the
+invariant, it still returns — same bytes, size, content type, user metadata, ETag and version id —
+after ANY sequence of operations none of which writes (b, k): operations on other keys and other
+buckets (puts, deletes, copies, appends, multipart uploads, versioning changes, bucket creation and
+deletion), reads, listings, and tagging / storage-class transitions of (b, k) itself. -/
+theorem get_stable (q : Quirks) (s : State) (hinv : Inv s) (b k : String) (v : ObjView)
+    (hget : (step q s (.get b k none)).2 = .obj v) (ops : List Op) (hnw : ∀ op ∈ ops, ¬ Writes op b k) :
+    ∃ v', (step q (run q s ops).1 (.get b k none)).2 = .obj v' ∧ v'.body = v.body ∧ v'.size = v.body.length ∧
+      v'.ct = v.ct ∧ v'.md = v.md ∧ v'.etag = v.etag ∧ v'.vid = v.vid := by
+  obtain ⟨c, hc, hdm, h1, h2, h3, h4, h5⟩ := get_obj_cur hget
+  have hc' : curView (run q s ops).1 b k = some c := by rw [frame_run q ops b k hnw s hinv, hc]
+  obtain ⟨v', hg, g1, g2, g3, g4, g5, g6⟩ := get_of_cur (q := q) hc' hdm
+  exact ⟨v', hg, by rw [g1, h1], by rw [g2, h1], by rw [g3, h2], by rw [g4, h3], by rw [g5, h4], by rw [g6, h5]⟩
+
+/-- **last_write_wins.** After an acknowledged PutObject of `body` to (b, k), and any further
+operations that do not write (b, k), a GET of (b, k) returns exactly `body` (with its size and
+content type): the last acknowledged write to a key determines what is read, whatever happens to
+other keys and buckets in between. -/
+theorem last_write_wins (q : Quirks) (s s1 : State) (hinv : Inv s) (b k : String) (body : Bytes) (o : WriteOpts)
+    (inm : Bool) (im : IfMatch) (vid : Option Nat) (e : ETag)
+    (hack : step q s (.put b k body o inm im) = (s1, .wrote vid e))
+    (ops : List Op) (hnw : ∀ op ∈ ops, ¬ Writes op b k) :
+    ∃ v, (step q (run q s1 ops).1 (.get b k none)).2 = .obj v ∧ v.body = body ∧ v.size = body.length ∧
+      v.ct = o.ct ∧ v.vid = vid := by
+  obtain ⟨v, hg, _, hb, hs, hct, hvid⟩ := read_after_put q s s1 hinv b k body o inm im vid e hack
+  have hinv1 : Inv s1 := by have := step_inv q s (.put b k body o inm im) hinv; rw [hack] at this; exact this
+  obtain ⟨v', hg', h1, h2, h3, _, _, h6⟩ := get_stable q s1 hinv1 b k v hg ops hnw
+  exact ⟨v', hg', by rw [h1, hb], by rw [h2, hb], by rw [h3, hct], by rw [h6, hvid]⟩
+
+/-- The same from the empty storage: for every history `pre`, every acknowledged put after it and
+every continuation `ops` that does not write (b, k). -/
+theorem last_write_wins_reachable (q : Quirks) (pre : List Op) (b k : String) (body : Bytes) (o : WriteOpts)
+    (inm : Bool) (im : IfMatch) (s1 : State) (vid : Option Nat) (e : ETag)
+    (hack : step q (run q {} pre).1 (.put b k body o inm im) = (s1, .wrote vid e))
+    (ops : List Op) (hnw : ∀ op ∈ ops, ¬ Writes op b k) :
+    ∃ v, (step q (run q s1 ops).1 (.get b k none)).2 = .obj v ∧ v.body = body ∧ v.size = body.length ∧ v.ct = o.ct := by
+  obtain ⟨v, hg, h1, h2, h3, _⟩ := last_write_wins q _ s1 (reachable_inv q pre) b k body o inm im vid e hack ops hnw
+  exact ⟨v, hg, h1, h2, h3⟩
+
+/-- Non-vacuity of the frame: a continuation with writes to another key and another bucket, a
+versioning change, tagging and a transition of the key itself satisfies the hypothesis, and the
+model indeed reads the bytes back. -/
+example :
+    let ops : List Op := [.put "b" "other" [9] {} false .none, .mkb "c", .put "c" "k" [8] {} false .none,
+      .setVer "b" .enabled, .putTags "b" "k" none [("a", "b")], .transition "b" "k" "GLACIER" none, .del "b" "other" none .none]
+    (∀ op ∈ ops, ¬ Writes op "b" "k") ∧
+    ((step Quirks.code (run Quirks.code {} ([.mkb "b", .put "b" "k" [1, 2, 3] {} false .none] ++ ops)).1 (.get "b" "k" none)).2
+      matches .obj { body := [1, 2, 3], .. }) := by
+  decide
+
 
 end Pithos.C01
